@@ -31,6 +31,10 @@ func Open(filename, password string) (*DB, error) {
 		return nil, fmt.Errorf("error creating sqlite connector: %w", err)
 	}
 	db := sql.OpenDB(connector)
+	// A single connection, as documented: with the default pool concurrent
+	// requests get their own connections, which fail each other with
+	// "database is locked" as there is no busy timeout
+	db.SetMaxOpenConns(1)
 	if err := Init(db); err != nil {
 		return nil, err
 	}
